@@ -338,18 +338,19 @@ def t_command(key):
                     sb = calls(path, "tensor/manager.py::set_backend")
                     inf = first_call_index(path, spec["inference"])
                     want = BACKEND_TABLE[enumvals["backend"]]
-                    named = [c for c in sb if c.args and isinstance(c.args[0], str)]
+                    # arguments are read by parameter name or position (a call may be rewritten either way)
+                    named = [c for c in sb if isinstance(c.arg(0, "backend", None), str)]
                     if want is None:
                         ok = not named
                     else:
-                        ok = len(named) == 1 and named[0].args[0] == want[0] and named[0].kwargs.get("precision") == want[1]
+                        ok = len(named) == 1 and named[0].arg(0, "backend", None) == want[0] and named[0].arg(2, "precision", None) == want[1]
                     (T.ok if ok else T.fail)(f"{key}#fwd.backend->set_backend{sfx}", *([] if ok else [f"set_backend calls {[(c.args, c.kwargs) for c in named]} for --backend {enumvals['backend']}"]), kind="forwarding")
-                    opt_calls = [c for c in sb if not (c.args and isinstance(c.args[0], str))]
-                    okopt = len(opt_calls) == 1 and len(opt_calls[0].args) >= 2
+                    opt_calls = [c for c in sb if not isinstance(c.arg(0, "backend", None), str)]
+                    okopt = len(opt_calls) == 1 and opt_calls[0].arg(1, "custom_optimizer", None) is not None
                     if okopt:
                         ctor = "scipy_optimizer" if enumvals["optimizer"] == "scipy" else "minuit_optimizer"
                         made = [c for c in path.calls if isinstance(c.target, str) and c.target.endswith("::" + ctor)]
-                        okopt = len(made) == 1 and occurs(eng, made[0].kwargs.get("**", made[0].kwargs), opts["optconf"]) and _is(eng, path, opt_calls[0].args[1], made[0].result)
+                        okopt = len(made) == 1 and occurs(eng, made[0].kwargs.get("**", made[0].kwargs), opts["optconf"]) and _is(eng, path, opt_calls[0].arg(1, "custom_optimizer", None), made[0].result)
                     (T.ok if okopt else T.fail)(f"{key}#fwd.optimizer+optconf->set_backend{sfx}", *([] if okopt else ["optimizer / optconf do not reach set_backend"]), kind="forwarding")
                     before = inf is not None and all(c.seq < inf for c in sb)
                     (T.ok if before else T.fail)(f"{key}#order.set_backend-before-inference{sfx}", *([] if before else ["set_backend after the inference call"]), kind="order")
